@@ -523,9 +523,21 @@ type c20Ewma struct {
 	Samples []c20Sample `json:"samples"`
 	// kind const: the public constructors (EwmaETA / EwmaSpeed with their own
 	// estimator of the given age, 0 = default) fed a constant rate
+	Unit  int     `json:"unit,omitempty"` // speeds: 1024 | 1000 | 0 (no unit)
+	SFmt  string  `json:"speed_fmt,omitempty"`
 	Ctor  string  `json:"ctor,omitempty"` // ewmaeta | ewmaspeed
 	Age   float64 `json:"age,omitempty"`
 	PerNs int64   `json:"per_item_ns,omitempty"`
+}
+
+func (c c20Ewma) unit() interface{} {
+	switch c.Unit {
+	case 1024:
+		return decor.SizeB1024(0)
+	case 1000:
+		return decor.SizeB1000(0)
+	}
+	return 0
 }
 
 // runConst: whatever the smoothing, an estimator fed one constant rate (every
@@ -540,9 +552,9 @@ func runConst(c c20Ewma) (msg string) {
 	var base decor.Decorator
 	switch c.Ctor {
 	case "ewmaspeed":
-		base = decor.EwmaSpeed(decor.SizeB1024(0), "% .2f", c.Age)
+		base = decor.EwmaSpeed(c.unit(), c.SFmt, c.Age)
 	case "tsma-speed": // a user-supplied estimator made thread safe by the library's wrapper
-		base = decor.MovingAverageSpeed(decor.SizeB1024(0), "% .2f", decor.NewThreadSafeMovingAverage(ewma.NewMovingAverage(c.Age)))
+		base = decor.MovingAverageSpeed(c.unit(), c.SFmt, decor.NewThreadSafeMovingAverage(ewma.NewMovingAverage(c.Age)))
 	case "tsma-eta":
 		base = decor.MovingAverageETA(decor.ET_STYLE_GO, decor.NewThreadSafeMovingAverage(decor.NewThreadSafeMovingAverage(ewma.NewMovingAverage(c.Age))), nil)
 	default:
@@ -602,8 +614,23 @@ func runConst(c c20Ewma) (msg string) {
 	}
 	if strings.HasSuffix(c.Ctor, "speed") {
 		speed := 1e9 / float64(c.PerNs)
-		if m := checkSizeStringTol(str, 1024, speed, 1e-6); m != "" {
-			return fmt.Sprintf("EwmaSpeed(age %v) after %d samples at a constant %d ns per item: %s", c.Age, len(c.Samples), c.PerNs, m)
+		var m string
+		if c.Unit == 0 {
+			// no unit: the plain number of items per second
+			pv, ulp, err := parseNum(strings.TrimSpace(str))
+			if err != nil {
+				m = fmt.Sprintf("printed %q: %v", str, err)
+			} else if !within(pv, ulp, new(big.Float).SetPrec(300).SetFloat64(speed*(1-1e-6)), false) && !within(pv, ulp, new(big.Float).SetPrec(300).SetFloat64(speed*(1+1e-6)), false) && !within(pv, ulp, new(big.Float).SetPrec(300).SetFloat64(speed), false) {
+				m = fmt.Sprintf("printed %q, true speed %v items/s", str, speed)
+			}
+		} else {
+			m = checkSizeStringTol(str, c.Unit, speed, 1e-6, c.SFmt)
+			if m == "" && !strings.HasSuffix(strings.TrimSpace(str), "/s") {
+				m = fmt.Sprintf("speed %q lacks /s", str)
+			}
+		}
+		if m != "" {
+			return fmt.Sprintf("%s(unit %d, format %q, age %v) after %d samples at a constant %d ns per item: %s", c.Ctor, c.Unit, c.SFmt, c.Age, len(c.Samples), c.PerNs, m)
 		}
 		return ""
 	}
@@ -619,11 +646,12 @@ func runConst(c c20Ewma) (msg string) {
 }
 
 // checkSizeStringTol: like checkSizeString for a real-valued truth known to a relative tolerance.
-func checkSizeStringTol(s string, sys int, v float64, rel float64) string {
+func checkSizeStringTol(s string, sys int, v float64, rel float64, format string) string {
+	// (an empty format means the library's default, whose spacing is not relied on)
 	lo, hi := int64(math.Floor(v*(1-rel))), int64(math.Ceil(v*(1+rel)))
 	var first string
 	for _, x := range []int64{int64(math.Round(v)), lo, hi} {
-		m := checkSizeString(s, sys, x, "% .2f")
+		m := checkSizeString(s, sys, x, format)
 		if m == "" {
 			return ""
 		}
@@ -1046,7 +1074,8 @@ func runC20(job common.Job, em *emitter) {
 				if k%8 == 7 {
 					// public constructors, own estimators, constant rate
 					c := c20Ewma{Kind: "const", Ctor: rng.PickS("ewmaeta", "ewmaspeed", "ewmaeta", "ewmaspeed", "tsma-eta", "tsma-speed"), Wrap: rng.Intn(3), Via: rng.PickS("direct", "bar", "barset"),
-						Age: []float64{0, 0, 30, 1, 7.5, 100}[rng.Intn(6)], PerNs: rng.Pick64(1, 3, 1000, 12345, int64(time.Millisecond))}
+						Age: []float64{0, 0, 30, 1, 7.5, 100}[rng.Intn(6)], PerNs: rng.Pick64(1, 3, 1000, 12345, int64(time.Millisecond)),
+						Unit: rng.Pick(1024, 1024, 1000, 0), SFmt: rng.PickS("% .2f", "% .2f", "", "%.1f")}
 					for i, n := 0, rng.Range(40, 60); i < n; i++ { // well past any estimator's warm-up
 						items := 1 + rng.I64n(1000)
 						d := items * c.PerNs
